@@ -9,6 +9,7 @@ from __future__ import annotations
 
 import contextlib
 import io
+import sys
 import time
 from dataclasses import dataclass, field
 from typing import Any, Callable
@@ -271,6 +272,8 @@ def run_cli(args: list[str], *, hooks_module: str | None = None) -> tuple[int, s
 
     out = io.StringIO()
     code = 0
+    saved_argv = sys.argv
+    sys.argv = ["st", *args]  # what the installed entry point sees (the cassette records the command line)
     try:
         with contextlib.redirect_stdout(out), contextlib.redirect_stderr(out):
             cli_main.main(args, standalone_mode=False)
@@ -286,4 +289,6 @@ def run_cli(args: list[str], *, hooks_module: str | None = None) -> tuple[int, s
 
         code = -1
         out.write("\nUNCAUGHT EXCEPTION LEFT THE CLI\n" + traceback.format_exc()[-1500:])
+    finally:
+        sys.argv = saved_argv
     return code, out.getvalue()
